@@ -127,6 +127,23 @@ def x_lca(report):
         raise Unrecognised("MultiLineageDB._save_sqlite", "padding length does not match the column count")
     out["sqlTaxSelect"] = sel
     out["sqlTaxInsert"] = ins
+    # the `columns` tuple LineageDB_Sqlite zips with the ranks to compute `available_ranks`
+    cols = None
+    for n in tu.body:
+        if isinstance(n, ast.ClassDef) and n.name == "LineageDB_Sqlite":
+            for st in n.body:
+                if isinstance(st, ast.Assign) and len(st.targets) == 1 and isinstance(st.targets[0], ast.Name) \
+                        and st.targets[0].id == "columns" and isinstance(st.value, ast.Tuple):
+                    cols = [e.value for e in st.value.elts if isinstance(e, ast.Constant)]
+                    if len(cols) != len(st.value.elts):
+                        cols = None
+    if cols is None or sorted(cols) != sorted(sel):
+        raise Unrecognised("LineageDB_Sqlite.columns", "not a literal tuple of the taxonomy column names")
+    init_src = ast.get_source_segment(tu_src, _func(tu, "__init__", "LineageDB_Sqlite"))
+    if "for column, rank in zip(self.columns, RankLineageInfo().taxlist):" not in init_src or \
+            'WHERE {column} IS NOT NULL AND {column} != ""' not in init_src:
+        raise Unrecognised("LineageDB_Sqlite.__init__", "available_ranks computation changed")
+    out["sqlTaxColumns"] = cols
 
     # ---- LCA_Database.downsample_scaled ---------------------------------------
     db_src = read("src/sourmash/lca/lca_db.py")
@@ -176,6 +193,15 @@ def x_lca(report):
         raise Unrecognised("command_classify.classify_signature", "threshold logic changed")
     out["lcaClsKeepGe"] = True
     out["lcaClsMajorityGt"] = True
+    # does `classify` turn --scaled (a float for argparse) into an int, as summarize_main / rankinfo_main do?
+    cmain = ast.unparse(_func(ast.parse(cl_src), "classify"))
+    if "lca_utils.load_databases(args.db, args.scaled)" not in cmain:
+        raise Unrecognised("command_classify.classify", "load_databases call changed")
+    out["clsScaledInt"] = "args.scaled = int(args.scaled)" in cmain
+    for fn_src, nm in ((read("src/sourmash/lca/command_summarize.py"), "summarize_main"),
+                       (read("src/sourmash/lca/command_rankinfo.py"), "rankinfo_main")):
+        if "args.scaled = int(args.scaled)" not in ast.unparse(_func(ast.parse(fn_src), nm)):
+            raise Unrecognised(nm, "no longer converts --scaled to int")
 
     # ---- twin implementations -----------------------------------------------------
     bt = _nodoc(_func(lu, "build_tree"))
@@ -257,6 +283,8 @@ def taxNcbiRanks : List String := {_lean_strs(out['taxNcbiRanks'])}
 /-- column order of the SELECT in `LineageDB_Sqlite.__getitem__` / of the INSERT in `_save_sqlite` -/
 def sqlTaxSelect : List String := {_lean_strs(out['sqlTaxSelect'])}
 def sqlTaxInsert : List String := {_lean_strs(out['sqlTaxInsert'])}
+/-- `LineageDB_Sqlite.columns`, zipped with the ranks to compute `available_ranks` -/
+def sqlTaxColumns : List String := {_lean_strs(out['sqlTaxColumns'])}
 /-- `LCA_Database.downsample_scaled`: `k < max_hash` (true) or `k <= max_hash` (false); threshold taken
     from a sketch built at the new scaled (true) or from `_get_max_hash_for_scaled` (false) -/
 def lcaDownStrict : Bool := {_bool(out['lcaDownStrict'])}
@@ -267,6 +295,8 @@ def lcaSigBatch : Nat := {out['lcaSigBatch']}
 def lcaSummKeepGe : Bool := {_bool(out['lcaSummKeepGe'])}
 def lcaClsKeepGe : Bool := {_bool(out['lcaClsKeepGe'])}
 def lcaClsMajorityGt : Bool := {_bool(out['lcaClsMajorityGt'])}
+/-- `lca classify` converts `--scaled` (parsed as a float) to an int before using it -/
+def clsScaledInt : Bool := {_bool(out['clsScaledInt'])}
 /-- the queries of `LCA_SqliteDatabase` honour `downsample_scaled` (hashes above the threshold of `self.scaled` are
     invisible, signatures are downsampled); `save_to_sql` records the identifiers and `_build_index` uses them -/
 def sqlDownHonoured : Bool := {_bool(out['sqlDownHonoured'])}
